@@ -95,6 +95,255 @@ func Decls(dir string, overlay map[string][]byte) ([]string, error) {
 	return out, nil
 }
 
+// Sigs returns the receiver-free signature of every declared function of the library (type-checked).
+func Sigs(dir string, env []string) (map[string]string, error) {
+	cfg := &packages.Config{
+		Mode: packages.NeedName | packages.NeedFiles | packages.NeedSyntax | packages.NeedTypes | packages.NeedTypesInfo | packages.NeedImports | packages.NeedDeps | packages.NeedCompiledGoFiles,
+		Dir:  dir, Env: env, Tests: false,
+	}
+	pkgs, err := packages.Load(cfg, ".")
+	if err != nil || len(pkgs) != 1 {
+		return nil, fmt.Errorf("load failed")
+	}
+	pkg := pkgs[0]
+	out := map[string]string{}
+	for _, f := range pkg.Syntax {
+		for _, d := range f.Decls {
+			if fd, ok := d.(*ast.FuncDecl); ok {
+				if obj, ok := pkg.TypesInfo.Defs[fd.Name].(*types.Func); ok {
+					sig := obj.Type().(*types.Signature)
+					out[DeclName(fd)] = types.TypeString(types.NewSignatureType(nil, nil, nil, sig.Params(), sig.Results(), sig.Variadic()), func(p *types.Package) string { return p.Name() })
+				}
+			}
+		}
+	}
+	return out, nil
+}
+
+// TypeDecls lists the named types declared by the library files (syntax only).
+func TypeDecls(dir string) ([]string, error) {
+	files, err := libFiles(dir)
+	if err != nil {
+		return nil, err
+	}
+	fset := token.NewFileSet()
+	var out []string
+	for _, fn := range files {
+		f, err := parser.ParseFile(fset, fn, nil, parser.SkipObjectResolution)
+		if err != nil {
+			return nil, err
+		}
+		for _, d := range f.Decls {
+			if gd, ok := d.(*ast.GenDecl); ok && gd.Tok == token.TYPE {
+				for _, sp := range gd.Specs {
+					out = append(out, sp.(*ast.TypeSpec).Name.Name)
+				}
+			}
+		}
+	}
+	sort.Strings(out)
+	return out, nil
+}
+
+// renameBack undoes renames of unexported functions, methods and types: an unknown declaration that is the only
+// candidate (same receiver and signature for functions; same set of method names and same kind of underlying type for
+// types) for a known declaration that disappeared is given its old name again, in every library file.
+func renameBack(dir string, known, knownTypes map[string]bool, env []string) (map[string][]byte, []string) {
+	cfg := &packages.Config{
+		Mode: packages.NeedName | packages.NeedFiles | packages.NeedSyntax | packages.NeedTypes | packages.NeedTypesInfo | packages.NeedImports | packages.NeedDeps | packages.NeedCompiledGoFiles,
+		Dir:  dir, Env: env, Tests: false,
+	}
+	pkgs, err := packages.Load(cfg, ".")
+	if err != nil || len(pkgs) != 1 || len(pkgs[0].Errors) > 0 {
+		return nil, nil
+	}
+	pkg := pkgs[0]
+	var notes []string
+	rename := map[types.Object]string{}
+	// types first
+	scope := pkg.Types.Scope()
+	var missingT, unknownT []string
+	for t := range knownTypes {
+		if scope.Lookup(t) == nil {
+			missingT = append(missingT, t)
+		}
+	}
+	for _, n := range scope.Names() {
+		if tn, ok := scope.Lookup(n).(*types.TypeName); ok && !tn.IsAlias() && !knownTypes[n] && !tn.Exported() {
+			unknownT = append(unknownT, n)
+		}
+	}
+	sort.Strings(missingT)
+	sort.Strings(unknownT)
+	methodsOfKnown := func(t string) []string {
+		var ms []string
+		for d := range known {
+			if strings.HasPrefix(d, t+".") {
+				ms = append(ms, strings.TrimPrefix(d, t+"."))
+			}
+		}
+		sort.Strings(ms)
+		return ms
+	}
+	typeRenamed := map[string]string{} // new -> old
+	for _, mt := range missingT {
+		want := strings.Join(methodsOfKnown(mt), ",")
+		var cands []string
+		for _, ut := range unknownT {
+			if typeRenamed[ut] != "" {
+				continue
+			}
+			named, _ := scope.Lookup(ut).Type().(*types.Named)
+			if named == nil {
+				continue
+			}
+			var ms []string
+			for i := 0; i < named.NumMethods(); i++ {
+				ms = append(ms, named.Method(i).Name())
+			}
+			sort.Strings(ms)
+			if strings.Join(ms, ",") == want {
+				cands = append(cands, ut)
+			}
+		}
+		if len(cands) == 1 {
+			typeRenamed[cands[0]] = mt
+			rename[scope.Lookup(cands[0])] = mt
+			notes = append(notes, "renamed type "+cands[0]+" back to "+mt)
+		}
+	}
+	// functions and methods (receiver type taken after type renames)
+	type fdecl struct {
+		obj  *types.Func
+		name string // receiver-qualified, with old type names
+	}
+	var unknownF []fdecl
+	now := map[string]bool{}
+	for _, f := range pkg.Syntax {
+		if strings.HasSuffix(pkg.Fset.File(f.Pos()).Name(), "_test.go") {
+			continue
+		}
+		for _, d := range f.Decls {
+			fd, ok := d.(*ast.FuncDecl)
+			if !ok {
+				continue
+			}
+			n := DeclName(fd)
+			if i := strings.Index(n, "."); i > 0 && typeRenamed[n[:i]] != "" {
+				n = typeRenamed[n[:i]] + n[i:]
+			}
+			now[n] = true
+			if !known[n] && !fd.Name.IsExported() {
+				if obj, ok := pkg.TypesInfo.Defs[fd.Name].(*types.Func); ok {
+					unknownF = append(unknownF, fdecl{obj, n})
+				}
+			}
+		}
+	}
+	var missingF []string
+	for d := range known {
+		if !now[d] {
+			missingF = append(missingF, d)
+		}
+	}
+	sort.Strings(missingF)
+	recvOf := func(n string) string {
+		if i := strings.Index(n, "."); i > 0 {
+			return n[:i]
+		}
+		return ""
+	}
+	used := map[*types.Func]bool{}
+	sigOf := func(f *types.Func) string {
+		sig := f.Type().(*types.Signature)
+		return types.TypeString(types.NewSignatureType(nil, nil, nil, sig.Params(), sig.Results(), sig.Variadic()), func(p *types.Package) string { return p.Name() })
+	}
+	for _, mf := range missingF {
+		var cands []fdecl
+		for _, u := range unknownF {
+			if !used[u.obj] && recvOf(u.name) == recvOf(mf) && (KnownSigs[mf] == "" || KnownSigs[mf] == sigOf(u.obj)) {
+				cands = append(cands, u)
+			}
+		}
+		if len(cands) == 1 {
+			// and no other missing function (same receiver, same signature) competes for it
+			comp := 0
+			for _, other := range missingF {
+				if recvOf(other) == recvOf(mf) && KnownSigs[other] == KnownSigs[mf] {
+					comp++
+				}
+			}
+			if comp != 1 {
+				continue
+			}
+			used[cands[0].obj] = true
+			old := mf[strings.Index(mf, ".")+1:]
+			rename[cands[0].obj] = old
+			notes = append(notes, "renamed "+cands[0].name+" back to "+mf)
+		}
+	}
+	// several missing / several unknown with one receiver: pair by signature
+	for _, mf := range missingF {
+		done := false
+		for _, n := range notes {
+			if strings.HasSuffix(n, "back to "+mf) {
+				done = true
+			}
+		}
+		if done {
+			continue
+		}
+		_ = mf
+	}
+	if len(rename) == 0 {
+		return nil, notes
+	}
+	// apply: every identifier that resolves to a renamed object
+	overlay := map[string][]byte{}
+	for _, f := range pkg.Syntax {
+		fname := pkg.Fset.File(f.Pos()).Name()
+		if strings.HasSuffix(fname, "_test.go") {
+			continue
+		}
+		type ed struct {
+			off int
+			old string
+			new string
+		}
+		var eds []ed
+		ast.Inspect(f, func(n ast.Node) bool {
+			id, ok := n.(*ast.Ident)
+			if !ok {
+				return true
+			}
+			obj := pkg.TypesInfo.Defs[id]
+			if obj == nil {
+				obj = pkg.TypesInfo.Uses[id]
+			}
+			if fn, isF := obj.(*types.Func); isF {
+				obj = fn.Origin()
+			}
+			if nn, ok := rename[obj]; ok && obj != nil {
+				eds = append(eds, ed{pkg.Fset.Position(id.Pos()).Offset, id.Name, nn})
+			}
+			return true
+		})
+		if len(eds) == 0 {
+			continue
+		}
+		src, err := os.ReadFile(fname)
+		if err != nil {
+			return nil, notes
+		}
+		sort.Slice(eds, func(i, j int) bool { return eds[i].off > eds[j].off })
+		for _, e := range eds {
+			src = append(append(append([]byte{}, src[:e.off]...), []byte(e.new)...), src[e.off+len(e.old):]...)
+		}
+		overlay[fname] = src
+	}
+	return overlay, notes
+}
+
 // Normalize inlines the calls of unknown helpers. It returns the overlay (nil when nothing had to be done) and
 // one note per action.
 func Normalize(dir string, known map[string]bool, env []string) (map[string][]byte, []string, error) {
@@ -113,6 +362,22 @@ func Normalize(dir string, known map[string]bool, env []string) (map[string][]by
 	}
 	overlay := map[string][]byte{}
 	var notes []string
+	if ov, ns := renameBack(dir, known, KnownTypes, env); len(ov) > 0 {
+		overlay = ov
+		notes = append(notes, ns...)
+		// the set of unknown declarations changes with the renames
+		if decls2, err := Decls(dir, overlay); err == nil {
+			unknown = map[string]bool{}
+			for _, d := range decls2 {
+				if !known[d] {
+					unknown[d] = true
+				}
+			}
+			if len(unknown) == 0 {
+				return overlay, notes, nil
+			}
+		}
+	}
 	failed := map[string]bool{}
 	for iter := 0; iter < 60; iter++ {
 		cfg := &packages.Config{
